@@ -308,6 +308,58 @@ func (g *e2eGen) generic(depth int) (any, *e2eTree) {
 	return m, t
 }
 
+// same JSON shape as e2eS2 / e2eInner with other Go types (a handler of a DIFFERENT parameter type
+// registered for the same name must be handed the same content)
+type e2eInnerB struct {
+	Blob jsonparser.Binary `json:"blob"`
+	N    float64           `json:"n"`
+	Tags []any             `json:"tags"`
+}
+type e2eS2B struct {
+	Name  any               `json:"name"`
+	Data  jsonparser.Binary `json:"data"`
+	Inner *e2eInnerB        `json:"inner"`
+	List  []float64         `json:"list"`
+	F     float64           `json:"f"`
+	Ok    bool              `json:"ok"`
+}
+
+var e2eAltTypes = map[string]reflect.Type{}
+
+func init() {
+	var anyPtr *any
+	anyT := reflect.TypeOf(anyPtr).Elem()
+	e2eAltTypes["meta"] = reflect.TypeOf(map[string]any{})
+	e2eAltTypes["int"] = reflect.TypeOf(float64(0))
+	e2eAltTypes["flt"] = anyT
+	e2eAltTypes["bool"] = anyT
+	e2eAltTypes["str"] = anyT
+	e2eAltTypes["bin"] = reflect.TypeOf(jsonparser.Binary{})
+	e2eAltTypes["strs"] = reflect.TypeOf([]any{})
+	e2eAltTypes["s2"] = reflect.TypeOf(e2eS2B{})
+	e2eAltTypes["ps3"] = reflect.TypeOf(e2eS3{})
+	e2eAltTypes["map"] = anyT
+	e2eAltTypes["any"] = anyT
+}
+
+// registrations of one name on the receiving socket: 0 = On with the primary parameter types,
+// 1 = On with the alternative types, 2 = Once with the primary types.  Recorded name index =
+// index + 100 * registration.
+func e2eRegs(seed uint64, ni int, n *e2eName) []int {
+	if n.extra {
+		return []int{0}
+	}
+	switch (seed/7 + uint64(ni)) % 4 {
+	case 0:
+		return []int{0}
+	case 1:
+		return []int{0, 1}
+	case 2:
+		return []int{0, 1, 2}
+	}
+	return []int{0, 2}
+}
+
 type e2eKind struct {
 	name  string
 	typ   reflect.Type
@@ -449,7 +501,6 @@ func e2eNameTable() []e2eName {
 }
 
 // the name that gets two handler registrations on the receiving side
-const e2eTwice = 0
 
 func (n *e2eName) trailingStr() bool {
 	hk := n.handlerKinds()
@@ -531,7 +582,7 @@ type e2eRow struct {
 	Names     []e2eName `json:"names"`
 	Trailing  []bool    `json:"trailing"` // per name index: last handler parameter is a string
 	Arity     []int     `json:"arity"`
-	Twice     int       `json:"twice"`      // name index registered twice (second registration records 100+index)
+	Regs      map[string][]int `json:"regs"` // per name index: handler registrations (see e2eRegs)
 	ProbeSet  int64     `json:"probe_set"`  // offset-probe handler saw a non-empty extra parameter
 	ProbeZero int64     `json:"probe_zero"` // ... saw the zero value
 	// websocket traffic WITH attachments while a poll response of the old transport is still in flight
@@ -592,12 +643,36 @@ func (rec *e2eRecorder) err(side string, err any) {
 }
 
 // handler of name index ni on connection c: records the digest of what it was handed
-func (rec *e2eRecorder) handler(c, ni int, n *e2eName) any {
+func (rec *e2eRecorder) handler(c, ni int, n *e2eName) any { return rec.handlerR(c, ni, n, false) }
+
+func e2eHandlerTypes(n *e2eName, alt bool) []reflect.Type {
 	hk := n.handlerKinds()
 	in := make([]reflect.Type, len(hk))
 	for i, k := range hk {
 		in[i] = e2eKinds[k].typ
+		if alt {
+			in[i] = e2eAltTypes[k]
+		}
 	}
+	return in
+}
+
+// registers the handlers of name index ni as e2eRegs says; on/once are the socket's methods
+func (rec *e2eRecorder) register(seed uint64, c, ni int, n *e2eName, on, once func(string, any), wrap func(reg int, alt bool) any) []int {
+	regs := e2eRegs(seed, ni, n)
+	for _, r := range regs {
+		h := wrap(ni+100*r, r == 1)
+		if r == 2 {
+			once(n.Name, h)
+		} else {
+			on(n.Name, h)
+		}
+	}
+	return regs
+}
+
+func (rec *e2eRecorder) handlerR(c, ni int, n *e2eName, alt bool) any {
+	in := e2eHandlerTypes(n, alt)
 	ft := reflect.FuncOf(in, nil, false)
 	return reflect.MakeFunc(ft, func(args []reflect.Value) []reflect.Value {
 		if n.extra {
@@ -649,7 +724,7 @@ func e2eRunScenario(scn e2eScn, lim e2eLimits) (row e2eRow) {
 		row.Trailing = append(row.Trailing, table[i].trailingStr())
 		row.Arity = append(row.Arity, len(table[i].handlerKinds()))
 	}
-	row.Twice = e2eTwice
+	row.Regs = map[string][]int{}
 	row.Emitted, row.Delivered, row.Errors, row.EmitPanic = []e2eEv{}, []e2eDel{}, []string{}, []string{}
 	rec := &e2eRecorder{errors: map[string]int{}}
 	rec.lastMove.Store(time.Now().UnixNano())
@@ -720,22 +795,18 @@ func e2eRunScenario(scn e2eScn, lim e2eLimits) (row e2eRow) {
 			for _, ni := range scn.Names {
 				ni := ni
 				n := &table[ni]
-				hk := n.handlerKinds()
-				in := make([]reflect.Type, len(hk))
-				for i, k := range hk {
-					in[i] = e2eKinds[k].typ
-				}
-				mk := func(reg int) any {
+				mk := func(reg int, alt bool) any {
+					in := e2eHandlerTypes(n, alt)
 					return reflect.MakeFunc(reflect.FuncOf(in, nil, false), func(args []reflect.Value) []reflect.Value {
 						once.Do(func() { ci = idxOf(s.ID()) })
-						f := reflect.ValueOf(rec.handler(ci, reg, n))
+						f := reflect.ValueOf(rec.handlerR(ci, reg, n, alt))
 						return f.Call(args)
 					}).Interface()
 				}
-				s.OnEvent(n.Name, mk(ni))
-				if ni == e2eTwice {
-					s.OnEvent(n.Name, mk(100+ni))
-				}
+				regs := rec.register(scn.Seed, -1, ni, n, s.OnEvent, s.OnceEvent, mk)
+				cmu.Lock()
+				row.Regs[strconv.Itoa(ni)] = regs
+				cmu.Unlock()
 			}
 			// decoy: a name nobody emits
 			s.OnEvent("never-emitted", func(m e2eMeta, x int) {
@@ -779,11 +850,13 @@ func e2eRunScenario(scn e2eScn, lim e2eLimits) (row e2eRow) {
 		cs.OnConnectError(func(err any) { rec.err("client-connect-error", err) })
 		if scn.Dir == "s2c" {
 			for _, ni := range scn.Names {
-				cs.OnEvent(table[ni].Name, rec.handler(ci, ni, &table[ni]))
-				if ni == e2eTwice {
-					// a second registration for the same name: must be handed every event too
-					cs.OnEvent(table[ni].Name, rec.handler(ci, 100+ni, &table[ni]))
-				}
+				ni, n := ni, &table[ni]
+				regs := rec.register(scn.Seed, ci, ni, n, cs.OnEvent, cs.OnceEvent, func(reg int, alt bool) any {
+					return rec.handlerR(ci, reg, n, alt)
+				})
+				cmu.Lock()
+				row.Regs[strconv.Itoa(ni)] = regs
+				cmu.Unlock()
 			}
 			cs.OnEvent("never-emitted", func(m e2eMeta, x int) {
 				rec.mu.Lock()
@@ -844,6 +917,7 @@ func e2eRunScenario(scn e2eScn, lim e2eLimits) (row e2eRow) {
 		ev  e2eEv
 		pad int
 	}
+	onceSeen := map[[2]int]bool{}
 	plans := make([][][]planned, scn.Clients)
 	expected := 0
 	tgtUse := 0
@@ -877,9 +951,13 @@ func e2eRunScenario(scn e2eScn, lim e2eLimits) (row e2eRow) {
 				ev := e2eEv{C: c, N: ni, E: e, S: s, D: strconv.FormatUint(e2eDigest(trees), 10), Text: text, Att: att, NAtt: natt}
 				ev.OK, ev.Key = e2ePredict(&scn, n, &ev, lim)
 				if ev.OK {
-					expected++
-					if ni == e2eTwice {
-						expected++
+					for _, r := range e2eRegs(scn.Seed, ni, n) {
+						if r != 2 {
+							expected++
+						} else if !onceSeen[[2]int{c, ni}] {
+							onceSeen[[2]int{c, ni}] = true
+							expected++
+						}
 					}
 				}
 				plans[c][e] = append(plans[c][e], planned{ev: ev, pad: pad})
